@@ -96,10 +96,17 @@ Init == /\ y \in Y0..Y1 /\ m = 1 /\ d = 1
         /\ dayNo = YearStart(y)
         /\ tod \in Tods
 
+\* Same-day instants whose FIELDS differ in several places at once, with both signs (one minute later and 60 ms earlier, one
+\* hour later and 3 s 600 ms earlier ...): an ordering or an equality that weighs the fields wrongly collides on some of
+\* them.  Emitted for one day in 97.
+XOffsets == {dh * 3600000 + dmi * 60000 + ds * 1000 + dz :
+                dh \in {-1, 0, 1}, dmi \in {-1, 0, 1}, ds \in {-3, -1, 0, 1, 3}, dz \in {-600, -60, -1, 0, 1, 60, 600}}
+XPairs == IF dayNo % 97 = 0 THEN {<<Fields(tod + o), Sign(0 - o)>> : o \in {x \in XOffsets : tod + x >= 0 /\ tod + x < DayMs}} ELSE {}
+
 \* 1 January 1970 was a Thursday: index 3 of Mon..Sun (growth: ObsTime.getDayOfWeek)
 DayNames == <<"Mon", "Tue", "Wed", "Thu", "Fri", "Sat", "Sun">>
 DayOfWeek(n) == DayNames[((n + 3) % 7) + 1]
-Record == [y |-> y, m |-> m, d |-> d, f |-> Fields(tod), day |-> dayNo, tod |-> tod, dow |-> DayOfWeek(dayNo),
+Record == [y |-> y, m |-> m, d |-> d, f |-> Fields(tod), day |-> dayNo, tod |-> tod, dow |-> DayOfWeek(dayNo), xp |-> XPairs,
            succ |-> [k \in {kk[1] : kk \in Kinds} |->
                        LET kk == CHOOSE q \in Kinds : q[1] = k
                            s == Shift(kk)
@@ -129,5 +136,7 @@ OrderAgrees == \A k \in Kinds :
                  /\ LexCmp(AllFields(<<y, m, d>>, tod), AllFields(s[1], s[3])) = InstCmp(dayNo, tod, s[2], s[3])
                  /\ (s[2] - dayNo - k[2]) * DayMs + (s[3] - tod) = k[3]
                  /\ (k[2] > 1 /\ s[1][1] <= Y1 + 1 => s[2] = ToDays(s[1][1], s[1][2], s[1][3]))
+OrderAgreesX == \A o \in {x \in XOffsets : tod + x >= 0 /\ tod + x < DayMs} :
+                   LexCmp(AllFields(<<y, m, d>>, tod), AllFields(<<y, m, d>>, tod + o)) = Sign(0 - o)
 DayChain == [][dayNo' = dayNo + 1 /\ <<y', m', d'>> = NextDate(<<y, m, d>>)]_vars
 =============================================================================
